@@ -9,7 +9,7 @@
    whose decimal value is not a float64 of Model/Num.v's dyadic domain
    (NumLit.parse_float = None); the scanner has no such boundary. *)
 From Soy Require Import Model.Bytes Model.Num Model.Values Model.Outcome Model.Ast Model.Token Model.NumLit
-  Model.ExprParser Model.Parser Generated.Tables Model.Lexer Model.Interp Model.InterpSafety Model.Globals.
+  Model.ExprParser Model.Parser Generated.Tables Model.Lexer Model.Interp Model.InterpSafety Model.Globals Spec.Safety.
 Open Scope N_scope.
 
 (* every float item denotes a float of the parser model's domain (decidable form of
@@ -45,3 +45,25 @@ Definition eval_expr_bytes (fuel : nat) (s : bstr) : outcome value :=
 (* soy.ParseGlobals on the bytes of the reader: the line loop of Model/Globals.v over that parser *)
 Definition parse_globals_bytes (fuel : nat) (input : bstr) : outcome (list (bstr * value)) :=
   parse_globals parse_expr_bytes fuel input.
+
+(* ---- budgets (Spec/Safety.v tree_height: the nesting depth of a tree) ---- *)
+
+(* the text evaluated with the budget its own tree asks for: a value, an error, or outside the float model,
+   for EVERY byte string *)
+Definition eval_expr_text (s : bstr) : outcome value :=
+  nd <- parse_expr_bytes s ;; eval_expr_impl true (tree_height nd) nd.
+
+
+(* the budget ParseGlobals needs for an input: the tallest right-hand side *)
+Definition line_fuel (line : bstr) : nat :=
+  match line with
+  | [] => 0%nat
+  | _ => if is_comment line then 0%nat else
+         match split_eq [] line with
+         | None => 0%nat
+         | Some (_, rhs) => match parse_expr_bytes (trim_space rhs) with Ok nd => tree_height nd | _ => 0%nat end
+         end
+  end.
+Definition globals_fuel (input : bstr) : nat :=
+  fold_right (fun raw acc => Nat.max (line_fuel (drop_cr raw)) acc) 0%nat (raw_lines [] input).
+
